@@ -482,6 +482,39 @@ func (p *pool) rules(t *rapid.T) map[string]func(*rapid.T) {
 			nm := p.add(x.b.Clone(), x.m.Clone(), false, x)
 			p.log("#%d.SetCopyOnWrite(true); #%d=Clone(#%d)", x.id, nm.id, x.id)
 		},
+		"cowMergeClone": func(t *rapid.T) {
+			// copy-on-write bitmap: clone, then an in-place union / symmetric difference with a bitmap whose chunk keys
+			// interleave with its own (leading and inner argument-only keys), then clone again - both clones join the pool
+			x := p.pick(t, "x")
+			if x.tainted || x.m.Card() > 400000 {
+				t.Skip("zero-copy lineage or too big")
+			}
+			x.b.SetCopyOnWrite(true)
+			c1 := p.add(x.b.Clone(), x.m.Clone(), false, x)
+			ym := model.New()
+			keys := x.m.Keys16()
+			for i, k := range keys {
+				if k > 0 && (i == 0 || keys[i-1] != k-1) && rapid.IntRange(0, 2).Draw(t, "before") != 0 {
+					ym.Add(uint64(k-1)<<16 + 11)
+				}
+				if rapid.IntRange(0, 2).Draw(t, "same") == 0 {
+					ym.AddRange(uint64(k)<<16+40000, uint64(k)<<16+40100)
+				}
+			}
+			if ym.IsEmpty() {
+				ym.Add(5)
+			}
+			y := roaring.New()
+			for _, iv := range ym.Intervals() {
+				y.AddRange(iv.Lo, iv.Hi+1)
+			}
+			op := rapid.SampledFrom([]int{1, 2}).Draw(t, "op")
+			nm := modelOp(op, x.m, ym)
+			inplaceOp(op, x.b, y)
+			x.m = nm
+			c2 := p.add(x.b.Clone(), x.m.Clone(), false, x)
+			p.log("#%d.SetCopyOnWrite(true); #%d=Clone(#%d); #%d.%s(interleaved keys %s); #%d=Clone(#%d)", x.id, c1.id, x.id, x.id, opNames[op], ym, c2.id, x.id)
+		},
 		"dropChunks": func(t *rapid.T) {
 			// a range removal that deletes whole chunks (leading or interior) and ends at the edge of /
 			// strictly inside a later chunk: the chunk table and its flags have to shift
